@@ -366,13 +366,37 @@ def _sentinel_tests(ctx, u, cfg, nodes, N) -> dict:
     return out
 
 
+def _tested_expr(ctx, u, cfg, n):
+    """what a branch tests: the answer of a comparison may be held in a local first (``live = state.current is self;
+    if not live: ..`` - e.g. a one-expression predicate method, inlined) as long as nothing can run between the
+    comparison and the test (no suspension point on the way)"""
+    e = n.ast
+    if not isinstance(e, ast.Name):
+        return e
+    from .common import inline_locals
+    try:
+        got = inline_locals(ctx, u, cfg, n, e, depth=1)
+    except Exception:  # noqa: BLE001
+        return e
+    if got is e or isinstance(got, ast.Name):
+        return e
+    defs = [d for d in cfg.nodes if d.kind == "store" and not d.tag
+            and any(isinstance(t, ast.Name) and t.id == e.id for t in d.info.get("targets", []))]
+    for d in defs:
+        seg = reachable([d], stop=lambda x: x is n, edge_ok=lambda a, lab, b: lab not in ("e", "p"))
+        if any(x.kind in ("await", "yield", "pull", "enter", "exit_cm") for x in seg):
+            return e
+    return got
+
+
 def r16_1_3_group(ctx, N) -> None:
     u = _view(ctx, N, "itertools._Grouper.__anext__")
     cfg = cfg_of(u)
     main = [n for n in cfg.nodes if not n.tag]
-    live_tests = [n for n in main if n.kind == "branch" and isinstance(n.ast, ast.Compare) and len(n.ast.ops) == 1
-                  and isinstance(n.ast.ops[0], (ast.Is, ast.IsNot)) and N.live in norm(n.ast)
-                  and any(isinstance(x, ast.Name) and x.id == "self" for x in (n.ast.left, n.ast.comparators[0]))]
+    tested = {n: _tested_expr(ctx, u, cfg, n) for n in main if n.kind == "branch"}
+    live_tests = [n for n in main if n.kind == "branch" and isinstance(tested[n], ast.Compare) and len(tested[n].ops) == 1
+                  and isinstance(tested[n].ops[0], (ast.Is, ast.IsNot)) and N.live in norm(tested[n])
+                  and any(isinstance(x, ast.Name) and x.id == "self" for x in (tested[n].left, tested[n].comparators[0]))]
     ctx.check(len(live_tests) >= 1, "R16.1", u, "__anext__", "the group tests whether it is still the live group")
     cursor = [n for n in main if (n.kind == "await" and any(a[0] == "libcoro" and a[1].startswith(ctx.pkg.cls("itertools._GroupByState").fq + ".")
                                                             for a in ctx.vals.expr(u, n.info.get("value"), n)))
@@ -381,7 +405,7 @@ def r16_1_3_group(ctx, N) -> None:
     ctx.count("cursor_uses", len(cursor))
 
     def live_edge(t: Node) -> str:
-        return "t" if isinstance(t.ast.ops[0], ast.Is) else "f"  # type: ignore[union-attr]
+        return "t" if isinstance(tested[t].ops[0], ast.Is) else "f"  # type: ignore[union-attr]
 
     for c in cursor:
         path = find_path(cfg.entry, lambda x: x is c, avoid=None,
@@ -690,10 +714,11 @@ def r16_5(ctx, N) -> None:
     main = [n for n in cfg.nodes if not n.tag]
     tests = {}
     for n in main:
-        if n.kind == "branch" and isinstance(n.ast, ast.Compare) and len(n.ast.ops) == 1 \
-                and isinstance(n.ast.ops[0], (ast.Is, ast.IsNot)) and f".{N.live}" in norm(n.ast) \
-                and any(isinstance(x, ast.Name) and x.id == me for x in (n.ast.left, n.ast.comparators[0])):
-            tests[n] = "t" if isinstance(n.ast.ops[0], ast.Is) else "f"
+        e = _tested_expr(ctx, u, cfg, n) if n.kind == "branch" else None
+        if n.kind == "branch" and isinstance(e, ast.Compare) and len(e.ops) == 1 \
+                and isinstance(e.ops[0], (ast.Is, ast.IsNot)) and f".{N.live}" in norm(e) \
+                and any(isinstance(x, ast.Name) and x.id == me for x in (e.left, e.comparators[0])):
+            tests[n] = "t" if isinstance(e.ops[0], ast.Is) else "f"
     clears = [n for n in main if n.kind == "store" and any(
         isinstance(t, ast.Attribute) and t.attr == N.live for t in n.info.get("targets", []))]
     ctx.check(bool(tests) and bool(clears), "R16.5", u, "aclose", "closing tests whether this group is the live one and clears the reference")
